@@ -120,6 +120,7 @@ class Cat:
         builtin = sorted(set(BLACKLIST_PACKAGE_NAMES) | {"beartype"})
         self.builtin = builtin
         self.base = {"a": prefix + "a", "b": prefix + "b", "c": prefix + "c", "x": rnd.choice(builtin)}
+        self.fresh = prefix + "fresh.sub"     # a name that no call ever mentions
         self.rbase = {v: k for k, v in self.base.items()}
         self._real = {}
         self._abs = {}
@@ -262,9 +263,10 @@ class Real:
         return sum(1 for h in sys.path_hooks if not any(h is b for b in base))
 
     def observe(self, names):
-        """public observables: [abstract conf per name], number of beartype path hooks."""
+        """public observables: [abstract conf per name], number of beartype path hooks, abstract
+        conf of a fresh name (= beartype_all's configuration)."""
         cat, lk = self.cat, self.lookup
-        return [cat.aconf(lk(cat.name(p))) for p in names], self.hook_count()
+        return [cat.aconf(lk(cat.name(p))) for p in names], self.hook_count(), cat.aconf(lk(cat.fresh))
 
     def snapshot(self):
         """internal registry (used for attribution and for 'leaves the registry as it was'):
@@ -333,7 +335,8 @@ def _q(xs):
     return "{" + ", ".join('"%s"' % x for x in xs) + "}"
 
 
-ALL_CHECKS = ["INVARIANT TypeOK", "INVARIANT LookupOK", "INVARIANT ProjOK", "INVARIANT HookOK", "INVARIANT NodesOK",
+ALL_CHECKS = ["INVARIANT TypeOK", "INVARIANT LookupOK", "INVARIANT ProjOK", "INVARIANT RootOK", "INVARIANT HookOK",
+              "INVARIANT NodesOK",
               "PROPERTY OutcomeOK", "PROPERTY FailedCallAtomic", "PROPERTY ReRegisterNoop", "PROPERTY ExitRestores"]
 
 
@@ -463,6 +466,11 @@ class G:
 
 
 _SEED = 0
+NSHARDS = 16
+
+
+def fresh_fmt(c):
+    return fmt_conf(c)
 
 
 def _expect_exc(out):
@@ -477,11 +485,13 @@ def _check_edge(real, g, ei, prefix, variant):
         real.call(c)
     before = real.snapshot()
     got_exc = real.call(call, variant)
-    proj, hooks = real.observe(g.names)
+    proj, hooks, fresh = real.observe(g.names)
     after = real.snapshot()
     mism = {}
     if got_exc != _expect_exc(out):
         mism["exc"] = [got_exc, _expect_exc(out)]
+    if fresh != g.internal[t][1]:
+        mism["root"] = [fresh_fmt(fresh), fmt_conf(g.internal[t][1])]
     if proj != g.proj[t]:
         mism["lookup"] = [(dotted(n), fmt_conf(a), fmt_conf(b)) for n, a, b in zip(g.names, proj, g.proj[t]) if a != b][:6]
     if (hooks >= 1) != g.hook[t] or hooks > 1:
@@ -548,8 +558,20 @@ def _prepare(item):
                 verified[t] = verified[s] + [g.edges[ei][1]]
                 queue.append(t)
     real.reset()
-    with open(pk, "wb") as fh:
-        pickle.dump((g, verified), fh, protocol=pickle.HIGHEST_PROTOCOL)
+    # one file per phase-2 shard: the node tables and only the edges leaving the states of that shard
+    all_edges, all_out = g.edges, g.out
+    for k in range(NSHARDS):
+        mine = [i for i in sorted(verified) if i % NSHARDS == k]
+        g.edges, g.out, remap = [], {}, {}
+        for i in mine:
+            g.out[i] = []
+            for ei in all_out[i]:
+                g.out[i].append(len(g.edges))
+                remap[len(g.edges)] = ei
+                g.edges.append(all_edges[ei])
+        with open(f"{pk}.{k}", "wb") as fh:
+            pickle.dump((g, {i: verified[i] for i in mine}, remap), fh, protocol=pickle.HIGHEST_PROTOCOL)
+    g.edges, g.out = all_edges, all_out
     seen = sorted({(e[1][0], e[2]) for e in g.edges})
     noop = any(e[0] == e[3] and e[2] == "ok" and e[1][0] in ("pkgs", "this", "all") for e in g.edges)
     deep = max(verified.values(), key=len)
@@ -562,29 +584,28 @@ def _prepare(item):
 def _phase2(item):
     """child: test every outgoing edge of the states of one shard."""
     import pickle
-    pk, k, nshards, seed = item
-    with open(pk, "rb") as fh:
-        g, verified = pickle.load(fh)
+    pk, k, seed = item
+    with open(f"{pk}.{k}", "rb") as fh:
+        g, verified, remap = pickle.load(fh)
     cat = Cat(seed)
     real = Real(cat)
     bad, n = [], 0
     for s in sorted(verified):
-        if s % nshards != k:
-            continue
         prefix = verified[s]
         real.reset()
         if not real.pristine():
             return {"fatal": "claw_state.reinit() does not reset the registry"}
         for c in prefix:
             real.call(c)
-        if real.observe(g.names) != (g.proj[s], int(g.hook[s])):
+        if real.observe(g.names) != (g.proj[s], int(g.hook[s]), g.internal[s][1]):
             return {"fatal": f"verified prefix no longer reaches its state: {fmt_hist(prefix)}"}
         for ei in g.out[s]:
-            variant = random.Random(seed * 1000003 + ei).randrange(1 << 16)
+            variant = random.Random(seed * 1000003 + remap[ei]).randrange(1 << 16)
             ok, rec = _check_edge(real, g, ei, prefix, variant)
             n += 1
             if not ok:
                 _, call, out, _t2 = g.edges[ei]
+                rec["edge"] = remap[ei]
                 rec.update(variant=variant, call=call, out=out, hist=prefix + [call])
                 if call[0] == "exit" and g.ctx[s]:
                     rec["block_prehk"] = g.ctx[s][-1][1][1]
@@ -599,7 +620,7 @@ def classify(call, out, rec):
     mism, changed = rec["mism"], rec["changed"]
     keys = []
     if call[0] == "exit":
-        if rec["root_after"] != rec["root_want"]:
+        if "root" in mism or rec["root_after"] not in (None, rec["root_want"]):
             sym = "root-not-restored"
         elif "hook" in mism:
             sym = "hook-kept" if mism["hook"][0] >= 1 else "hook-dropped"
@@ -613,7 +634,7 @@ def classify(call, out, rec):
                          f"leaving a beartyping() block does not restore the preceding state ({sym})"))
         return keys
     if out in ("conflict", "invalid") and "exc" not in mism:
-        parts = changed or (["lookup"] if "lookup" in mism else []) + (["hook"] if "hook" in mism else [])
+        parts = changed or (["lookup"] if "lookup" in mism or "root" in mism else []) + (["hook"] if "hook" in mism else [])
         for part in parts:
             keys.append(({"clause": "failed-call-atomic", "api": api, "cause": out, "changed": part},
                          f"{api} raises ({out}) but changes the {part} of the registry"))
@@ -621,7 +642,12 @@ def classify(call, out, rec):
     if "exc" in mism:
         keys.append(({"clause": "outcome", "api": api, "want": mism["exc"][1], "got": mism["exc"][0].split(":")[0]},
                      f"{api}: outcome {mism['exc'][0]} where C06 demands {mism['exc'][1]}"))
-    if "lookup" in mism and "exc" not in mism:
+    if "root" in mism and "exc" not in mism:
+        keys.append(({"clause": "lookup", "api": api, "name": "<unregistered name>", "got": mism["root"][0],
+                      "want": mism["root"][1]},
+                     f"after {api}: get_package_conf_or_none(<unregistered name>) is {mism['root'][0]}, C06 demands "
+                     f"{mism['root'][1]}"))
+    elif "lookup" in mism and "exc" not in mism:
         n, a, b = mism["lookup"][0]
         keys.append(({"clause": "lookup", "api": api, "name": n, "got": a, "want": b},
                      f"after {api}: get_package_conf_or_none('{n}') is {a}, C06 demands {b}"))
@@ -634,8 +660,7 @@ def classify(call, out, rec):
 
 def replay_graph(rep, prep, pk, label, seed):
     """phase 2 of the replay of one graph + verdicts."""
-    nshards = 16
-    results = fork_map(_phase2, [(pk, k, nshards, seed) for k in range(nshards)], procs=nshards, chunksize=1)
+    results = fork_map(_phase2, [(pk, k, seed) for k in range(NSHARDS)], procs=NSHARDS, chunksize=1)
     tested, bad_all = 0, []
     for r in results:
         if "fatal" in r:
@@ -692,10 +717,9 @@ def _run_history(item):
         call = (call[0], tuple(tuple(p) for p in call[1]), tuple(call[2][:2]) + (tuple(tuple(p) for p in call[2][2]),))
         before = real.snapshot()
         exc = real.call(call, 0)
-        proj, hooks = real.observe(names)
+        proj, hooks, fresh = real.observe(names)
         after = real.snapshot()
-        out.append({"exc": exc, "proj": proj, "hooks": hooks, "changed": snap_diff(before, after),
-                    "root": after[1] if after else None})
+        out.append({"exc": exc, "proj": proj, "hooks": hooks, "changed": snap_diff(before, after), "root": fresh})
     real.reset()
     return out
 
@@ -714,7 +738,8 @@ def replay_counterexample(rep, switch, res, k):
     names = sorted((tuple(p) for p in tr[0][1]["proj"]), key=lambda p: (len(p), p))
     obs = fork_map(_run_history, [(names, hist, _SEED)], procs=1)[0]
     follows = all(o["exc"] == _expect_exc(out) and o["proj"] == [conf_key(st["proj"][p]) for p in names]
-                  and (o["hooks"] >= 1) == bool(st["hook"]) for o, (out, st) in zip(obs, states))
+                  and (o["hooks"] >= 1) == bool(st["hook"]) and o["root"] == conf_key(st["root"])
+                  for o, (out, st) in zip(obs, states))
     rep.count(len(hist))
     rep.nontrivial(f"cex:{switch}")
     rep.sample({"tlc_counterexample_of": switch, "history": fmt_hist(hist),
@@ -789,9 +814,10 @@ def _record_histories(item):
         for i, call in enumerate(hist):
             before = real.snapshot()
             exc = real.call(call, random.Random(seed * 7919 + i).randrange(1 << 16))
-            proj, hooks = real.observe(TRACE_NAMES)
+            proj, hooks, fresh = real.observe(TRACE_NAMES)
             after = real.snapshot()
-            ev = {"call": call, "exc": exc, "proj": proj, "hooks": hooks, "changed": snap_diff(before, after)}
+            ev = {"call": call, "exc": exc, "proj": proj, "hooks": hooks, "root": fresh,
+                  "changed": snap_diff(before, after)}
             if call[0] == "enter" and exc == "none":
                 roots.append((before[1] if before else None, call[2]))
             if call[0] == "exit" and roots:
@@ -824,10 +850,16 @@ def write_trace(path, recorded):
             op, ps, c = ev["call"]
             e = {"ev": EV[op], "ps": [list(p) for p in ps], "c": ci(c),
                  "out": ev["exc"] if ev["exc"] in ("none", PUBLIC_EXC) else "other",
-                 "hook": ev["hooks"] >= 1, "proj": [ci(x) for x in ev["proj"]]}
+                 "hook": ev["hooks"] >= 1, "root": ci(ev["root"]), "proj": [ci(x) for x in ev["proj"]]}
             lines.append(e)
             where[len(lines) + 1] = (tid, j)         # +1: the header is line 1
     lines.append({"ev": "Reset", "tid": 0})             # the log ends with a Reset
+    nr = None
+    for i in range(len(lines) - 1, -1, -1):             # position (1-based, header = 1) of the closing Reset
+        if lines[i]["ev"] == "Reset":
+            nr = i + 2
+        else:
+            lines[i]["nr"] = nr
     header = {"ev": "Header", "names": [list(p) for p in TRACE_NAMES],
               "confs": [{"id": c[0], "hk": c[1], "skip": [list(p) for p in c[2]]} for c in confs]}
     with open(path, "w") as fh:
@@ -865,7 +897,7 @@ def record_traces(d, seed, count, length, batch=400):
     batch; returns the TLC jobs and what is needed to judge their results."""
     rnd = random.Random(seed)
     hists = [random_history(rnd, rnd.randrange(length // 2, length + 1)) for _ in range(count)]
-    nproc = 16
+    nproc = 8
     shards = [hists[i::nproc] for i in range(nproc)]
     rec_shards = fork_map(_record_histories, [(seed, sh) for sh in shards if sh], procs=nproc, chunksize=1)
     recorded = [None] * count
@@ -926,10 +958,25 @@ def judge_traces(rep, rec, results):
             nev += len(evs)
             for e in evs:
                 ops_seen.add((e["call"][0], e["exc"] == "none"))
+            hist = hists[tid - 1]
+            upto = rejected.get(tid, len(evs) - 1)
+            breaches = [i for i in range(upto + 1) if evs[i]["exc"] != "none" and evs[i]["changed"]]
+            for i in breaches:
+                # "raises ... and leaves the registry as it was": judged on the real registry itself
+                for key, summary in classify_event(hist, i, evs[i]):
+                    rep.violation(key, f"{summary}.  Recorded history (seed {seed}, #{tid}), event {i + 1}: ... "
+                                  f"{fmt_hist(hist[max(0, i - 3):i + 1])}",
+                                  {"kind": "history", "history": [list(c) for c in hist[:i + 1]], "seed": seed,
+                                   "origin": "random history, registry compared before/after the raising call", "event": i})
             if tid in rejected:
                 j = rejected[tid]
-                hist = hists[tid - 1]
-                for key, summary in classify_event(hist, j, evs[j]):
+                keys = classify_event(hist, j, evs[j])
+                indefinite = keys[0][0]["clause"] == "trace" or keys[0][0].get("symptom") == "state-differs"
+                if indefinite and any(i < j for i in breaches):
+                    # the lookups diverge only now, but because of the registry change of an earlier raising call
+                    rep.add("trace_rejections_explained_by_earlier_atomicity_breach")
+                    keys = []
+                for key, summary in keys:
                     rep.violation(key, f"{summary}.  Recorded history (seed {seed}, #{tid}) is not a behaviour of "
                                   f"ClawRegistry.tla from event {j + 1}: ... {fmt_hist(hist[max(0, j - 3):j + 1])}",
                                   {"kind": "history", "history": [list(c) for c in hist[:j + 1]], "seed": seed,
@@ -1183,7 +1230,6 @@ def run(rep, tier, seed):
 def replay(rep, path):
     body = json.load(open(path))
     case = body["case"]
-    rep.level = "exploration"
     import beartype.claw  # noqa: F401
     hist = [(c[0], tuple(tuple(p) for p in c[1]), (c[2][0], bool(c[2][1]), tuple(tuple(p) for p in c[2][2])))
             for c in case["history"]]
@@ -1199,7 +1245,8 @@ def replay(rep, path):
     rej = sorted(rejected_of(res, where).values())
     for j, (c, e) in enumerate(zip(hist, evs)):
         shown = {dotted(n): fmt_conf(x) for n, x in zip(TRACE_NAMES, e["proj"]) if x != NONE and len(n) <= 2}
-        print(f"  {j + 1:2d}. {fmt_call(c)} -> {e['exc']}; hooks={e['hooks']}; changed={e['changed']}; lookups={shown}")
+        print(f"  {j + 1:2d}. {fmt_call(c)} -> {e['exc']}; hooks={e['hooks']}; beartype_all conf={fmt_conf(e['root'])}; "
+              f"changed={e['changed']}; lookups={shown}")
         rep.count()
     if rej:
         j = rej[0]
@@ -1210,3 +1257,5 @@ def replay(rep, path):
         print("  => the history is a behaviour of ClawRegistry.tla: the reported violation no longer reproduces")
     rep.nontrivial("replay")
     rep.nontrivial("replay2")
+    rep.sample({"replayed": fmt_hist(hist)})
+    rep.add("traces_validated_against_impl", 0 if rej else 1)
